@@ -83,7 +83,6 @@ open Jedi.Gen.AsmX86
 /-! ## symbolic execution, cut into pieces -/
 
 set_option maxHeartbeats 1600000 in
-set_option maxRecDepth 100000 in
 theorem sqr768_part0 (s : State) (pr pa : Word)
     (hr : Buf s pr 12 true) (ha : Buf s pa 6 false) (hra : X86.Disjoint pr 12 pa 6)
     (hstk : Stack s 7) (hrs : OffStack s 7 pr 12) (has : OffStack s 7 pa 6) {a0 a1 a2 a3 m7h m7l m12h m12l m17h m17l m24h m24l m29h m29l m36h m36l : Word} {t13 t14 t18 t19 t25 t26 t30 t31 t32 t33 t37 t38 : ArithRes}
@@ -118,7 +117,6 @@ theorem sqr768_part0 (s : State) (pr pa : Word)
   x86_sym [hst, hpc, hdi, hsi, sub8x3_toNat, sub8x4_toNat, sub8x5_toNat, sub8x6_toNat, sub8x7_toNat, mulLo_fold, mulHi_fold, ← ha0, ← ha1, ← ha2, ← ha3, ← hm7l, ← hm7h, ← hm12l, ← hm12h, ← ht13, ← ht14, ← hm17l, ← hm17h, ← ht18, ← ht19, ← hm24l, ← hm24h, ← ht25, ← ht26, ← hm29l, ← hm29h, ← ht30, ← ht31, ← ht32, ← ht33, ← hm36l, ← hm36h, ← ht37, ← ht38]
 
 set_option maxHeartbeats 1600000 in
-set_option maxRecDepth 100000 in
 theorem sqr768_part1 (s : State) (pr pa : Word)
     (hr : Buf s pr 12 true) (ha : Buf s pa 6 false) (hra : X86.Disjoint pr 12 pa 6)
     (hstk : Stack s 7) (hrs : OffStack s 7 pr 12) (has : OffStack s 7 pa 6) {a0 a1 a2 a3 a4 a5 m7l m43h m43l m48h m48l m55h m55l m62h m62l m69h m69l m74h m74l : Word} {t13 t25 t32 t33 t37 t38 t44 t45 t49 t50 t51 t52 t56 t57 t58 t59 t63 t64 t70 t71 t75 t76 t77 t78 : ArithRes}
@@ -156,7 +154,6 @@ theorem sqr768_part1 (s : State) (pr pa : Word)
   x86_sym [sub8x3_toNat, sub8x4_toNat, sub8x5_toNat, sub8x6_toNat, sub8x7_toNat, mulLo_fold, mulHi_fold, ← ha0, ← ha1, ← ha2, ← ha3, ← ha4, ← ha5, ← hm43l, ← hm43h, ← ht44, ← ht45, ← hm48l, ← hm48h, ← ht49, ← ht50, ← ht51, ← ht52, ← hm55l, ← hm55h, ← ht56, ← ht57, ← ht58, ← ht59, ← hm62l, ← hm62h, ← ht63, ← ht64, ← hm69l, ← hm69h, ← ht70, ← ht71, ← hm74l, ← hm74h, ← ht75, ← ht76, ← ht77, ← ht78]
 
 set_option maxHeartbeats 1600000 in
-set_option maxRecDepth 100000 in
 theorem sqr768_part2 (s : State) (pr pa : Word)
     (hr : Buf s pr 12 true) (ha : Buf s pa 6 false) (hra : X86.Disjoint pr 12 pa 6)
     (hstk : Stack s 7) (hrs : OffStack s 7 pr 12) (has : OffStack s 7 pa 6) {a0 a2 a3 a4 a5 m7l m81h m81l m88h m88l m95h m95l m114h m114l : Word} {t13 t25 t44 t63 t64 t70 t75 t77 t78 t82 t83 t84 t85 t89 t90 t91 t92 t96 t97 t100 t101 t102 t103 t104 t105 t106 t107 t108 t109 t111 t116 t119 : ArithRes}
@@ -195,7 +192,6 @@ theorem sqr768_part2 (s : State) (pr pa : Word)
   x86_sym [sub8x3_toNat, sub8x4_toNat, sub8x5_toNat, sub8x6_toNat, sub8x7_toNat, mulLo_fold, mulHi_fold, ← ha0, ← ha2, ← ha3, ← ha4, ← hm81l, ← hm81h, ← ht82, ← ht83, ← ht84, ← ht85, ← hm88l, ← hm88h, ← ht89, ← ht90, ← ht91, ← ht92, ← hm95l, ← hm95h, ← ht96, ← ht97, ← ht100, ← ht101, ← ht102, ← ht103, ← ht104, ← ht105, ← ht106, ← ht107, ← ht108, ← ht109, ← ht111, ← hm114l, ← hm114h, ← ht116, ← ht119]
 
 set_option maxHeartbeats 1600000 in
-set_option maxRecDepth 100000 in
 theorem sqr768_part3 (s : State) (pr pa : Word)
     (hr : Buf s pr 12 true) (ha : Buf s pa 6 false) (hra : X86.Disjoint pr 12 pa 6)
     (hstk : Stack s 7) (hrs : OffStack s 7 pr 12) (has : OffStack s 7 pa 6) {a1 a2 a3 a4 m114h m114l m121h m121l m131h m131l m141h m141l m151h m151l : Word} {t101 t102 t103 t104 t105 t106 t107 t108 t109 t111 t116 t119 t122 t123 t124 t125 t127 t132 t133 t134 t135 t137 t142 t143 t144 t145 t147 t152 t153 t154 t155 t157 : ArithRes}
@@ -234,7 +230,6 @@ theorem sqr768_part3 (s : State) (pr pa : Word)
   x86_sym [sub8x3_toNat, sub8x4_toNat, sub8x5_toNat, sub8x6_toNat, sub8x7_toNat, mulLo_fold, mulHi_fold, ← ha1, ← ha2, ← ha3, ← ha4, ← hm121l, ← hm121h, ← ht122, ← ht123, ← ht124, ← ht125, ← ht127, ← hm131l, ← hm131h, ← ht132, ← ht133, ← ht134, ← ht135, ← ht137, ← hm141l, ← hm141h, ← ht142, ← ht143, ← ht144, ← ht145, ← ht147, ← hm151l, ← hm151h, ← ht152, ← ht153, ← ht154, ← ht155, ← ht157]
 
 set_option maxHeartbeats 1600000 in
-set_option maxRecDepth 100000 in
 theorem sqr768_part4 (s : State) (pr pa : Word)
     (hr : Buf s pr 12 true) (ha : Buf s pa 6 false) (hra : X86.Disjoint pr 12 pa 6)
     (hstk : Stack s 7) (hrs : OffStack s 7 pr 12) (has : OffStack s 7 pa 6) {a5 m114l m161h m161l : Word} {t109 t111 t116 t124 t125 t134 t135 t144 t145 t152 t153 t154 t155 t157 t162 t163 t164 t166 t168 : ArithRes}
@@ -266,7 +261,6 @@ theorem sqr768_part4 (s : State) (pr pa : Word)
 /-! ## the theorem -/
 
 set_option maxHeartbeats 1600000 in
-set_option maxRecDepth 100000 in
 /-- `void bigint_768_square(res, a)`: the twelve limbs of `res` are `a²` -/
 theorem bigint_768_square_run (s : State) (pr pa : Word)
     (hst : s.status = .running) (hpc : s.pc = 0) (hdi : s.rdi = pr) (hsi : s.rsi = pa)
@@ -418,14 +412,14 @@ theorem bigint_768_square_run (s : State) (pr pa : Word)
   simp only [OffStack] at hrs
   clear hq0 hq1 hq2 hq3 hq4 hall
   refine ⟨⟨rfl, ?_, ?_, ?_, ?_, ?_, ?_, ?_, ?_⟩, ?_, ?_⟩
-  · first | rfl | simp only
-  · first | rfl | simp only
-  · first | rfl | simp only
-  · first | rfl | simp only
-  · first | rfl | simp only
-  · first | rfl | simp only
-  · first | rfl | simp only
-  · first | rfl | simp only
+  · rfl
+  · rfl
+  · rfl
+  · rfl
+  · rfl
+  · rfl
+  · rfl
+  · rfl
   · x86_mem
     have e7 := mul_spec a1 a0; rw [← hm7l, ← hm7h] at e7
     have e12 := muladd64_spec hm12l hm12h ht13 ht14
